@@ -146,5 +146,225 @@ theorem facArgs_head (a0 a1 n b1 : List Char) (k : Nat) (c : Char) (t : List Cha
   rw [nextvis_opt a0 '(' _ oa paren_open_graph.1 paren_open_graph.2]
   simp only [List.tail_cons, ne_eq, not_true_eq_false, ↓reduceIte]
   rw [facCount_ok a1 n b1 k c t oa1 ob1 hn hc]
+  rfl
+
+theorem nextIs_close (b : List Char) (ob : OptBlank b) : (!nextIs (b ++ [')']) ')') = false := by
+  rw [(nextIs_opt b ')' [] ob paren_close_graph.1 paren_close_graph.2).1]; rfl
+
+/-- **a recognised `fac(…)` description is accepted and denotes its sequence** -/
+theorem accept_fac (s : List Char) (k : Nat) (base f init : Rat) (den : Den)
+    (h : recognise s = some (.fac k base f init)) (hd : (Desc.fac k base f init).den = some den) :
+    ∃ g, create s = some g ∧ g.all = den.elems ∧ g.rem = g.all ∧ g.WF := by
+  have hk : dblMinS ≤ base ∧ dblMinS ≤ f ∧ k < 4294967295 ∧ den = IterSpec.factor k base f init := by
+    simp only [Desc.den] at hd
+    split at hd
+    · rename_i hc; cases hd; exact ⟨hc.1, hc.2.1, hc.2.2, rfl⟩
+    · cases hd
+  obtain ⟨c1, c2, c3, hden⟩ := hk
+  subst hden
+  rw [dblMin_eq] at c1 c2
+  have nb : ¬ base < dblMin := by grind
+  have nf : ¬ f < dblMin := by grind
+  unfold recognise at h
+  simp only [] at h
+  split at h
+  · cases hq : numbers s with
+    | none => rw [hq] at h; simp at h
+    | some vs => rw [hq] at h; simp only [Option.bind_some] at h; split at h <;> cases h
+  · rename_i hname
+    have hname' : (s.takeWhile isLetter).isEmpty = false := by simpa using hname
+    have finish : ∀ (hkw : keywordKind (s.takeWhile isLetter) = some 2) (rest' : List Char),
+        s.dropWhile isLetter = rest' →
+        facArgs rest' = some (.factor base f init (wrap32 (k + 1)) 0 init) →
+        ∃ g, create s = some g ∧ g.all = (IterSpec.factor k base f init).elems ∧ g.rem = g.all ∧ g.WF := by
+      intro hkw rest' hr hfa
+      have hkw' := keyword_fac _ hkw
+      have hl : (s.takeWhile isLetter).length ≤ 6 := by
+        rw [← lowerAll_length]
+        rcases hkw' with e | e | e <;> rw [e] <;> decide
+      rw [create_keyword s hname' hl]
+      simp only []
+      rw [if_neg (by rcases hkw' with e | e | e <;> rw [e] <;> decide), if_pos hkw', hr, hfa]
+      obtain ⟨d1, d2, d3⟩ := fac_den k base f init c3
+      exact ⟨_, rfl, d1, d2, d3⟩
+    split at h
+    all_goals first
+      | (cases h; done)
+      | (exfalso; revert h; (repeat' split) <;> intros <;> simp_all; done)
+      | skip
+    · -- count only: base 10, factor 10, start 0
+      rename_i n hkw hf
+      cases hn : strictCount n with
+      | none => rw [hn] at h; simp at h
+      | some k' =>
+        rw [hn] at h
+        simp only [Option.map_some, Option.some.injEq, Desc.fac.injEq] at h
+        obtain ⟨e1, e2, e3, e4⟩ := h
+        subst e1; subst e2; subst e3; subst e4
+        obtain ⟨a0, inner, hrest, oa, hfs⟩ := fieldsOf_inv _ _ hf
+        obtain ⟨g1, hg1, hg2⟩ := map_eq_one trim1 _ n hfs.symm
+        have hj := join_splitC ':' inner
+        rw [hg1] at hj
+        simp only [joinC] at hj
+        obtain ⟨a1, b1, hf1, oa1, ob1⟩ := trim1_inv g1
+        rw [hg2] at hf1
+        apply finish hkw (a0 ++ '(' :: (a1 ++ (n ++ (b1 ++ [')']))))
+        · rw [hrest, ← hj, hf1]; simp only [List.append_assoc, List.cons_append, List.nil_append]
+        · rw [facArgs_head a0 a1 n b1 k' ')' [] oa oa1 ob1 hn close_stops.1, facBase_none b1 ob1]
+          simp only []
+          rw [facTail_none 10 b1 ob1 ten_not_small]
+          simp only []
+          rw [nextIs_close b1 ob1]
+          rfl
+    · -- count and base: the factor is the base
+      rename_i n bx hkw hf
+      cases hn : strictCount n with
+      | none => rw [hn] at h; simp at h
+      | some k' =>
+        rw [hn] at h
+        cases hb : numbers bx with
+        | none => rw [hb] at h; simp at h
+        | some vs =>
+          rw [hb] at h
+          match vs, h, hb with
+          | [x], h, hb =>
+            simp only [Option.some.injEq, Desc.fac.injEq] at h
+            obtain ⟨e1, e2, e3, e4⟩ := h
+            subst e1; subst e2; subst e3; subst e4
+            have hx := numbers_one bx x hb
+            obtain ⟨a0, inner, hrest, oa, hfs⟩ := fieldsOf_inv _ _ hf
+            obtain ⟨g1, g2, hg, hg1, hg2⟩ := map_eq_two trim1 _ n bx hfs.symm
+            have hj := join_splitC ':' inner
+            rw [hg] at hj
+            simp only [joinC] at hj
+            obtain ⟨a1, b1, hf1, oa1, ob1⟩ := trim1_inv g1
+            obtain ⟨a2, b2, hf2, oa2, ob2⟩ := trim1_inv g2
+            rw [hg1] at hf1
+            rw [hg2] at hf2
+            apply finish hkw (a0 ++ '(' :: (a1 ++ (n ++ (b1 ++ ':' :: (a2 ++ (bx ++ (b2 ++ [')'])))))))
+            · rw [hrest, ← hj, hf1, hf2]; simp only [List.append_assoc, List.cons_append, List.nil_append]
+            · rw [facArgs_head a0 a1 n b1 k' ':' _ oa oa1 ob1 hn colon_stops.1,
+                facBase_some b1 a2 bx b2 x ')' [] ob1 oa2 ob2 hx close_stops]
+              simp only []
+              rw [facTail_none x b2 ob2 nb]
+              simp only []
+              rw [nextIs_close b2 ob2]
+              rfl
+          | [], h, _ => simp at h
+          | _ :: _ :: _, h, _ => simp at h
+    · -- count, base and factor
+      rename_i n bx fx hkw hf
+      cases hn : strictCount n with
+      | none => rw [hn] at h; simp at h
+      | some k' =>
+        rw [hn] at h
+        cases hb : numbers bx with
+        | none => rw [hb] at h; simp at h
+        | some vs =>
+          rw [hb] at h
+          cases hfx : numbers fx with
+          | none => rw [hfx] at h; revert h; (repeat' split) <;> intros <;> simp_all
+          | some ws =>
+            rw [hfx] at h
+            match vs, ws, h, hb, hfx with
+            | [x], [y], h, hb, hfx =>
+              simp only [Option.some.injEq, Desc.fac.injEq] at h
+              obtain ⟨e1, e2, e3, e4⟩ := h
+              subst e1; subst e2; subst e3; subst e4
+              have hx := numbers_one bx x hb
+              have hy := numbers_one fx y hfx
+              obtain ⟨a0, inner, hrest, oa, hfs⟩ := fieldsOf_inv _ _ hf
+              match hsp : IterSpec.splitOn ':' inner, hfs with
+              | [g1, g2, g3], hfs =>
+                simp only [List.map_cons, List.map_nil, List.cons.injEq, and_true] at hfs
+                obtain ⟨hg1, hg2, hg3⟩ := hfs
+                have hj := join_splitC ':' inner
+                rw [hsp] at hj
+                simp only [joinC] at hj
+                obtain ⟨a1, b1, hf1, oa1, ob1⟩ := trim1_inv g1
+                obtain ⟨a2, b2, hf2, oa2, ob2⟩ := trim1_inv g2
+                obtain ⟨a3, b3, hf3, oa3, ob3⟩ := trim1_inv g3
+                rw [← hg1] at hf1
+                rw [← hg2] at hf2
+                rw [← hg3] at hf3
+                apply finish hkw (a0 ++ '(' :: (a1 ++ (n ++ (b1 ++ ':' :: (a2 ++ (bx ++ (b2 ++ ':' :: (a3 ++ (fx ++ (b3 ++ [')']))))))))))
+                · rw [hrest, ← hj, hf1, hf2, hf3]; simp only [List.append_assoc, List.cons_append, List.nil_append]
+                · rw [facArgs_head a0 a1 n b1 k' ':' _ oa oa1 ob1 hn colon_stops.1,
+                    facBase_some b1 a2 bx b2 x ':' _ ob1 oa2 ob2 hx colon_stops]
+                  simp only []
+                  rw [facTail_fact x b2 a3 fx b3 y ob2 oa3 ob3 hy nf]
+                  simp only []
+                  rw [nextIs_close b3 ob3]
+                  rfl
+              | [], hfs => simp at hfs
+              | [_], hfs => simp at hfs
+              | [_, _], hfs => simp at hfs
+              | _ :: _ :: _ :: _ :: _, hfs => simp at hfs
+            | [], _, h, _, _ => simp at h
+            | _ :: _ :: _, _, h, _, _ => simp at h
+            | [_], [], h, _, _ => simp at h
+            | [_], _ :: _ :: _, h, _, _ => simp at h
+    · -- all four fields
+      rename_i n bx fx ix hkw hf
+      cases hn : strictCount n with
+      | none => rw [hn] at h; simp at h
+      | some k' =>
+        rw [hn] at h
+        cases hb : numbers bx with
+        | none => rw [hb] at h; simp at h
+        | some vs =>
+          rw [hb] at h
+          cases hfx : numbers fx with
+          | none => rw [hfx] at h; revert h; (repeat' split) <;> intros <;> simp_all
+          | some ws =>
+            rw [hfx] at h
+            cases hix : numbers ix with
+            | none => rw [hix] at h; revert h; (repeat' split) <;> intros <;> simp_all
+            | some us =>
+              rw [hix] at h
+              match vs, ws, us, h, hb, hfx, hix with
+              | [x], [y], [z], h, hb, hfx, hix =>
+                simp only [Option.some.injEq, Desc.fac.injEq] at h
+                obtain ⟨e1, e2, e3, e4⟩ := h
+                subst e1; subst e2; subst e3; subst e4
+                have hx := numbers_one bx x hb
+                have hy := numbers_one fx y hfx
+                have hz := numbers_one ix z hix
+                obtain ⟨a0, inner, hrest, oa, hfs⟩ := fieldsOf_inv _ _ hf
+                match hsp : IterSpec.splitOn ':' inner, hfs with
+                | [g1, g2, g3, g4], hfs =>
+                  simp only [List.map_cons, List.map_nil, List.cons.injEq, and_true] at hfs
+                  obtain ⟨hg1, hg2, hg3, hg4⟩ := hfs
+                  have hj := join_splitC ':' inner
+                  rw [hsp] at hj
+                  simp only [joinC] at hj
+                  obtain ⟨a1, b1, hf1, oa1, ob1⟩ := trim1_inv g1
+                  obtain ⟨a2, b2, hf2, oa2, ob2⟩ := trim1_inv g2
+                  obtain ⟨a3, b3, hf3, oa3, ob3⟩ := trim1_inv g3
+                  obtain ⟨a4, b4, hf4, oa4, ob4⟩ := trim1_inv g4
+                  rw [← hg1] at hf1
+                  rw [← hg2] at hf2
+                  rw [← hg3] at hf3
+                  rw [← hg4] at hf4
+                  apply finish hkw (a0 ++ '(' :: (a1 ++ (n ++ (b1 ++ ':' :: (a2 ++ (bx ++ (b2 ++ ':' :: (a3 ++ (fx ++ (b3 ++ ':' :: (a4 ++ (ix ++ (b4 ++ [')'])))))))))))))
+                  · rw [hrest, ← hj, hf1, hf2, hf3, hf4]; simp only [List.append_assoc, List.cons_append, List.nil_append]
+                  · rw [facArgs_head a0 a1 n b1 k' ':' _ oa oa1 ob1 hn colon_stops.1,
+                      facBase_some b1 a2 bx b2 x ':' _ ob1 oa2 ob2 hx colon_stops]
+                    simp only []
+                    rw [facTail_init x b2 a3 fx b3 a4 ix b4 y z ob2 oa3 ob3 oa4 ob4 hy hz nf]
+                    simp only []
+                    rw [nextIs_close b4 ob4]
+                    rfl
+                | [], hfs => simp at hfs
+                | [_], hfs => simp at hfs
+                | [_, _], hfs => simp at hfs
+                | [_, _, _], hfs => simp at hfs
+                | _ :: _ :: _ :: _ :: _ :: _, hfs => simp at hfs
+              | [], _, _, h, _, _, _ => simp at h
+              | _ :: _ :: _, _, _, h, _, _, _ => simp at h
+              | [_], [], _, h, _, _, _ => simp at h
+              | [_], _ :: _ :: _, _, h, _, _, _ => simp at h
+              | [_], [_], [], h, _, _, _ => simp at h
+              | [_], [_], _ :: _ :: _, h, _, _, _ => simp at h
 
 end Mpt.Iter
